@@ -93,6 +93,7 @@ let model_token (s : st) (t : tok) : st * string =
   (s3, tag)
 let route_of = function
   | 'r' -> RReturn | 'e' -> RExit | 'w' -> RExitInBlock | 't' -> RThrow | 's' -> RExitStatus | 'j' -> RExitAfterThread
+  | 'T' | 'I' | 'F' -> RSigUncaught | 'a' -> RSigCaughtReturn | 'b' -> RSigCaughtThrow | 'c' -> RSigCaughtExit
   | c -> failwith ("bad route " ^ String.make 1 c)
 let sorted_ids l = List.sort compare (List.map int_of_nat l)
 let dump_model (s : st) =
@@ -111,7 +112,7 @@ let dump_spec (s : sp) =
 let () =
   let mode = Sys.argv.(1) in
   if mode = "params" then
-    Printf.printf "rem_fix=%b sweep_fix=%b defer_fix=%b shape=%b main_atexit=%b main_after_return=%b\n" lc_rem_fix lc_sweep_fix lc_defer_fix lc_shape lc_main_atexit lc_main_after
+    Printf.printf "rem_fix=%b sweep_fix=%b defer_fix=%b shape=%b main_atexit=%b main_after_return=%b error_exits=%b\n" lc_rem_fix lc_sweep_fix lc_defer_fix lc_shape lc_main_atexit lc_main_after lc_err_exit
   else
   read_lines (fun line ->
     match String.split_on_char '|' line with
